@@ -9,6 +9,7 @@ import (
 	"sort"
 	"strconv"
 	"strings"
+	"sync"
 	"testing"
 
 	"github.com/brutella/hc/characteristic"
@@ -55,15 +56,16 @@ type ctl struct {
 }
 
 type world struct {
-	tb    *fixture.TestBed
-	acc   *fixture.Acc
-	dir   string
-	ltpk  []byte
-	chars []*chr
-	ctls  []*ctl
-	hist  []string
-	flags map[string]bool
-	n     int
+	unordered bool // the pending expectations stem from concurrent changes
+	tb        *fixture.TestBed
+	acc       *fixture.Acc
+	dir       string
+	ltpk      []byte
+	chars     []*chr
+	ctls      []*ctl
+	hist      []string
+	flags     map[string]bool
+	n         int
 }
 
 func canon(v interface{}) string {
@@ -112,7 +114,9 @@ func newWorld(nctl int) (*world, error) {
 	}
 	add("bulb.on", bulb.ID, bulb.Lightbulb.On.Characteristic, true, false)
 	add("bulb.brightness", bulb.ID, bulb.Lightbulb.Brightness.Characteristic, 0, 1, 50, 100, 100, 150, -5)
-	add("bulb.text", bulb.ID, w.tb.Text.Characteristic, "", "a", "b \"quoted\"", "ünï 😀")
+	add("bulb.text", bulb.ID, w.tb.Text.Characteristic, "", "a", "b \"quoted\"", "ünï 😀",
+		// values that look like pieces of the protocol which carries them
+		"Proxy (HTTP/1.0 only)", "HTTP/1.0 200 OK", "EVENT/1.0 200 OK\r\nContent-Length: 0\r\n\r\n", "HTTP/1.1", "Content-Length: 5", "}]}")
 	add("bulb.blob(no-ev)", bulb.ID, w.tb.Blob.Characteristic, "AQID", "BAUG", "")
 	add("thermo.target", th.ID, th.Thermostat.TargetTemperature.Characteristic, 10.0, 20.5, 35.0, 21.0, 35.0, 50.0, 0.0)
 	add("thermo.current(read-only)", th.ID, th.Thermostat.CurrentTemperature.Characteristic, 11.0, 22.5, 30.0)
@@ -202,6 +206,11 @@ func (w *world) sync(after string) error {
 		got, perr := parseEvents(c.cl.DrainEvents())
 		if perr != nil {
 			return fmt.Errorf("after %s: controller %d: %v", after, i, perr)
+		}
+		if w.unordered {
+			// changes made by concurrent goroutines: any order, but still exactly once each
+			sort.Slice(got, func(a, b int) bool { return got[a].String() < got[b].String() })
+			sort.Slice(c.expected, func(a, b int) bool { return c.expected[a].String() < c.expected[b].String() })
 		}
 		if fmt.Sprint(got) != fmt.Sprint(c.expected) {
 			return fmt.Errorf("after %s: controller %d received events %v, expected %v (subscriptions: %s)", after, i, got, c.expected, w.subsOf(c))
@@ -410,6 +419,58 @@ func TestC10Prop(t *testing.T) {
 					w.flags["change-after-unsubscribe-or-close"] = true
 				}
 				fail(t, w, w.sync(what))
+			},
+			"concurrent-local-sets": func(t *rapid.T) {
+				// several application goroutines change different characteristics at the same time: the
+				// notification rounds overlap; every subscribed connection still gets each change exactly once
+				n := rapid.IntRange(2, 4).Draw(t, "n")
+				perm := rapid.Permutation([]int{0, 1, 2, 3, 4, 7, 8}).Draw(t, "chars")
+				type job struct {
+					ch *chr
+					v  interface{}
+				}
+				var jobs []job
+				for _, ci := range perm {
+					if ci >= len(w.chars) || len(jobs) == n {
+						continue
+					}
+					ch := w.chars[ci]
+					var v interface{}
+					for _, cand := range ch.values {
+						if canon(effective(ch, cand)) != canon(ch.cur) {
+							v = cand
+							break
+						}
+					}
+					if v == nil {
+						continue
+					}
+					jobs = append(jobs, job{ch, v})
+				}
+				if len(jobs) < 2 {
+					t.Skip("not enough characteristics with a fresh value")
+				}
+				what := "app sets concurrently:"
+				for _, j := range jobs {
+					what += fmt.Sprintf(" %s=%v", j.ch.name, j.v)
+				}
+				w.hist = append(w.hist, what)
+				var wg sync.WaitGroup
+				start := make(chan struct{})
+				for _, j := range jobs {
+					wg.Add(1)
+					go func(j job) { defer wg.Done(); <-start; j.ch.ch.UpdateValue(j.v) }(j)
+				}
+				close(start)
+				wg.Wait()
+				for _, j := range jobs {
+					w.changed(j.ch, j.v, nil)
+				}
+				w.unordered = true
+				err := w.sync(what)
+				w.unordered = false
+				fail(t, w, err)
+				w.flags["concurrent-changes"] = true
 			},
 			"remote-write": func(t *rapid.T) {
 				c := pickCtl(true)
